@@ -560,6 +560,14 @@ def invalid_table(t, nodes, other, onodes, typed_t, tnodes):
     yield "typed move_to", lambda: tnodes[0].move_to(typed_t)
     yield "typed bad kind", lambda: typed_t.add("NEW", kind=123)
     yield "typed before=node of other parent", lambda: tnodes[0].add("NEW", kind="k", before=tnodes[0])
+    yield "typed: add tree colliding at 2nd node (other kind)", lambda: _collide_typed_tree(typed_t, tnodes)
+    yield "typed: copy_to(add_self=False) colliding at 2nd child (other kind)", lambda: _collide_typed_children(typed_t, tnodes)
+    yield "from_dict on a node that has children", lambda: (inner or t._root).from_dict([{"data": "fd-new-1"}, {"data": "fd-new-2"}])
+    yield "from_dict on a node that has children, colliding item", lambda: (inner or t._root).from_dict(
+        [{"data": "fd-new-1"}, {"data": (inner or t).children[0].data, "data_id": (inner or t).children[0].data_id}])
+    yield "from_dict with a colliding item (empty node)", lambda: leaf.from_dict([{"data": "fd-1"}, {"data": "fd-2"}, {"data": "fd-1"}])
+    yield "from_dict with a mapper raising at the 2nd item (node with children)", lambda: (inner or t._root).from_dict(
+        [{"data": "fd-new-1"}, {"data": "fd-new-2"}], mapper=_raise_at_second())
     yield "add tree colliding at 2nd node", lambda: _collide_tree(t, other)
     yield "copy_to(add_self=False) colliding at 2nd child", lambda: _collide_children(t, nodes)
 
@@ -570,6 +578,44 @@ def typed_or_int_rename(t):
         n.rename("x")
     finally:
         n.remove()
+
+
+def _with_child(a):
+    if not a.children:
+        a.add("fd-existing")
+    return a
+
+
+def _raise_at_second():
+    calls = []
+
+    def mapper(parent, data):
+        calls.append(1)
+        if len(calls) == 2:
+            raise InjectedFault("mapper fails at its 2nd call")
+        return data["data"]
+
+    return mapper
+
+
+def _collide_typed_tree(typed_t, tnodes):
+    from nutree.typed_tree import TypedTree
+
+    src = TypedTree("src")
+    src.add("zz-fresh-1", kind="k2").add("zz-below", kind="k2")
+    src.add(tnodes[1].data, kind="k2")  # same data_id as a top node of the target, other kind
+    src.add("zz-fresh-2", kind="k2")
+    typed_t.add(src)
+
+
+def _collide_typed_children(typed_t, tnodes):
+    from nutree.typed_tree import TypedTree
+
+    src = TypedTree("src")
+    top = src.add("top", kind="k2")
+    top.add("zz-fresh-1", kind="k2")
+    top.add(tnodes[0].data, kind="k3")
+    top.copy_to(typed_t, add_self=False, deep=True)
 
 
 def _collide_tree(t, other):
